@@ -24,6 +24,10 @@ type Property struct {
 	Judge func(kind string, raw json.RawMessage) (got, want string, err error)
 	// Rule describes the enumeration and what makes a case non-trivial.
 	Rule string
+	// Word32: the quick tier of this check is run once more as a GOARCH=386 binary
+	// (32-bit int/uint/uintptr), when check.sh provides one: the build
+	// configuration is one more axis of the enumerated space.
+	Word32 bool
 	// Assumptions trusted by the check.
 	Assumptions []string
 }
